@@ -18,7 +18,11 @@ EXC = {"NamePartTooLongException": "NamePartTooLongException", "IndexError": "In
 def impl_packets(gm):
     try:
         out = gm.to_lib()
-        return ("ok", out.packets())
+        pk = out.packets()
+        if any(len(p) > 8966 for p in pk):
+            # keep the evidence small: a builder that emits oversized datagrams can emit megabytes of them
+            return ("oversize", [len(p) for p in pk][:50])
+        return ("ok", pk)
     except Exception as ex:  # noqa: BLE001  every exception class is an observation
         n = type(ex).__name__
         return ("err", EXC.get(n, n))
@@ -180,11 +184,11 @@ def run_prop(ctx, prop, size_bias=None):
                 "non-trivial = distinct (size class, #packets, kinds present, multicast, query, outcome) signatures")
     for k, ((kind, m), (ik, iv)) in enumerate(zip(cases, impl)):
         res.evaluations += 1
-        npk = len(iv) if ik == "ok" else 0
+        npk = len(iv) if ik in ("ok", "oversize") else 0
         kinds = "".join(sorted({e.kind for e in m.entries()}))
-        res.nontriv((kind.split(":")[0], min(npk, 6), kinds, m.multicast, (m.flags & 0x8000) == 0, ik if ik == "ok" else iv,
+        res.nontriv((kind.split(":")[0], min(npk, 6), kinds, m.multicast, (m.flags & 0x8000) == 0, ik if ik in ("ok", "oversize") else iv,
                      max((len(p) for p in iv), default=0) > 1460 if ik == "ok" else None))
-        res.count("outcome:" + (ik if ik == "ok" else iv))
+        res.count("outcome:" + (ik if ik in ("ok", "oversize") else iv))
         res.count("packets:%s" % ("1" if npk == 1 else "2-5" if 2 <= npk <= 5 else ">5" if npk > 5 else "0"))
         if ik == "ok":
             for p in iv:
@@ -192,6 +196,9 @@ def run_prop(ctx, prop, size_bias=None):
         if k < 2:
             res.sample({"kind": kind, "msg": m.tok()[:400], "packets": [p.hex()[:120] for p in iv] if ik == "ok" else iv})
         case = {"msg": m.tok(), "kind": kind}
+        if ik == "oversize":
+            res.violate("%s:oversized-packet" % prop, "datagrams of %s bytes were produced (limit 8966)" % iv[:8], case)
+            continue
         # C: byte-exact
         if model is not None:
             mo = enc_out[k]
@@ -202,6 +209,8 @@ def run_prop(ctx, prop, size_bias=None):
         if ik == "err":
             if m.in_quantifier() and iv != "NamePartTooLongException":
                 res.violate("%s:unexpected-exception:%s" % (prop, iv), "the builder raised %s on a message inside the quantifier" % iv, case)
+            elif iv == "BuilderDoesNotTerminate":
+                res.violate("%s:builder-does-not-terminate" % prop, "packets() keeps emitting datagrams without consuming entries", case)
             elif m.in_quantifier() and iv == "NamePartTooLongException" and m.max_label() <= 63:
                 res.violate("%s:rejects-short-labels" % prop, "NamePartTooLongException although no label exceeds 63 bytes", case)
             continue
